@@ -1,6 +1,7 @@
 import BtcModel.Tx
 import BtcModel.Block
 import BtcProofs.Lemmas.Tx
+import BtcProofs.Lemmas.TxStrict
 /-!
 # C06 — Transaction and block serialization round-trips byte-for-byte; ids are exact
 
@@ -94,6 +95,179 @@ theorem serLegacy_ignores_witness (t : Tx) (w : Option (List (List Bytes))) :
 /-- a legacy transaction's full serialisation is its witness-stripped one -/
 theorem serTx_legacy (t : Tx) (h : t.witness = none) : serTx t = serLegacy t := by
   unfold serTx; rw [h]
+
+/-! ## The direction in which the property is worded: parse first, then serialise
+
+"Well-formed serialized transaction" = a byte string the strict reader `parseTxS` accepts (`parseTx` with
+CompactSize counts in shortest form only). -/
+
+/-- T7: **for every byte string**, whatever the strict reader accepts re-serialises to exactly the
+bytes that were read - legacy or segwit, any counts, any script and witness item sizes - and the rest of
+the stream is what the reader says it left. -/
+theorem serTx_parseTxS (bs : Bytes) (t : Tx) (r : Bytes) (h : parseTxS bs = some (t, r)) : serTx t ++ r = bs := by
+  unfold parseTxS at h
+  split at h
+  · simp at h
+  · rename_i ver r0 e0
+    obtain ⟨a0, _⟩ := readFixed_some _ _ _ _ e0
+    simp only at h
+    split at h
+    · simp at h
+    · rename_i ins r2 eI
+      have aI := readListS_some readInS serIn (fun bs a r h => (readInS_some bs a r h).1) _ _ _ eI
+      split at h
+      · simp at h
+      · rename_i outs r3 eO
+        have aO := readListS_some readOutS serOut (fun bs a r h => (readOutS_some bs a r h).1) _ _ _ eO
+        cases hseg : isSegwitMarker r0 with
+        | true =>
+          simp only [hseg, if_true] at h aI
+          split at h
+          · simp at h
+          · rename_i ws r4 eW
+            obtain ⟨aW, _⟩ := readN_some readStackS serStack (fun bs a r h => (readStackS_some bs a r h).1) _ _ _ _ eW
+            split at h
+            · simp at h
+            · rename_i lt r5 eL
+              obtain ⟨aL, _⟩ := readFixed_some _ _ _ _ eL
+              simp only [Option.some.injEq, Prod.mk.injEq] at h
+              obtain ⟨h1, h2⟩ := h
+              subst h1; subst h2
+              -- the two marker bytes
+              have hm : r0 = [0x00, 0x01] ++ r0.drop 2 := by
+                unfold isSegwitMarker at hseg
+                split at hseg
+                · simp
+                · simp at hseg
+              simp only [serTx, serIns, serOuts, List.append_assoc]
+              rw [aL, aW]
+              have e2 : csE outs.length ++ ((outs.map serOut).flatten ++ r3) = r2 := by
+                simpa [List.append_assoc] using aO
+              rw [e2]
+              have e1 : csE ins.length ++ ((ins.map serIn).flatten ++ r2) = r0.drop 2 := by
+                simpa [List.append_assoc] using aI
+              rw [e1]
+              rw [← a0]
+              congr 1
+              exact hm.symm
+        | false =>
+          simp only [hseg, Bool.false_eq_true, if_false] at h aI
+          split at h
+          · simp at h
+          · rename_i lt r5 eL
+            obtain ⟨aL, _⟩ := readFixed_some _ _ _ _ eL
+            simp only [Option.some.injEq, Prod.mk.injEq] at h
+            obtain ⟨h1, h2⟩ := h
+            subst h1; subst h2
+            simp only [serTx, serLegacy, serIns, serOuts, List.append_assoc]
+            rw [aL]
+            have e2 : csE outs.length ++ ((outs.map serOut).flatten ++ r3) = r2 := by
+              simpa [List.append_assoc] using aO
+            rw [e2]
+            have e1 : csE ins.length ++ ((ins.map serIn).flatten ++ r2) = r0 := by
+              simpa [List.append_assoc] using aI
+            rw [e1, a0]
+
+/-- T8: the strict reader refines the reader that is run against the library: wherever it accepts, `parseTx`
+returns the same transaction and the same rest. -/
+theorem parseTxS_refines (bs : Bytes) (x : Tx × Bytes) (h : parseTxS bs = some x) : parseTx bs = some x := by
+  unfold parseTxS at h
+  unfold parseTx
+  split at h
+  · simp at h
+  · rename_i ver r0 e0
+    rw [e0]
+    simp only at h ⊢
+    split at h
+    · simp at h
+    · rename_i ins r2 eI
+      rw [readListS_mono readInS readIn (fun bs x h => (readInS_some bs x.1 x.2 h).2) _ _ eI]
+      simp only
+      split at h
+      · simp at h
+      · rename_i outs r3 eO
+        rw [readListS_mono readOutS readOut (fun bs x h => (readOutS_some bs x.1 x.2 h).2) _ _ eO]
+        simp only
+        split
+        · rename_i hseg
+          simp only [hseg, if_true] at h
+          split at h
+          · simp at h
+          · rename_i ws r4 eW
+            rw [readN_mono readStackS readStack (fun bs x h => (readStackS_some bs x.1 x.2 h).2) _ _ _ eW]
+            exact h
+        · rename_i hseg
+          simp only [hseg, if_false] at h
+          exact h
+
+/-- T9: the strict reader accepts every serialisation of a well-formed transaction (so T7 is about all
+of them, and only non-canonical counts are excluded) -/
+theorem parseTxS_serTx (t : Tx) (h : t.WF) (r : Bytes) : parseTxS (serTx t ++ r) = some (t, r) := by
+  obtain ⟨hv, hl, hni, hno, hins, houts, hw⟩ := h
+  have hI : ∀ r, readListS readInS (serIns t.ins ++ r) = some (t.ins, r) := fun r =>
+    readListS_ser readInS serIn t.ins hni (fun a ha r => readInS_serIn a (hins a ha) r) r
+  have hO : ∀ r, readListS readOutS (serOuts t.outs ++ r) = some (t.outs, r) := fun r =>
+    readListS_ser readOutS serOut t.outs hno (fun a ha r => readOutS_serOut a (houts a ha) r) r
+  cases hwit : t.witness with
+  | none =>
+    rw [hwit] at hw
+    simp only at hw
+    unfold parseTxS serTx serLegacy
+    rw [hwit]
+    simp only [List.append_assoc]
+    rw [readFixed_le _ 4 _ (by omega : t.version < 256 ^ 4)]
+    simp only
+    -- the byte after the version is a non-zero input count, not the segwit marker
+    have hlen : 1 ≤ t.ins.length := by
+      cases hi : t.ins with
+      | nil => exact absurd hi hw
+      | cons a as => simp
+    obtain ⟨b, rest, hb, hbne⟩ := csE_head_ne_zero t.ins.length hlen hni
+      ((t.ins.map serIn).flatten ++ (serOuts t.outs ++ (leBytes t.locktime 4 ++ r)))
+    have hsplit : serIns t.ins ++ (serOuts t.outs ++ (leBytes t.locktime 4 ++ r)) = b :: rest := by
+      unfold serIns; rw [List.append_assoc]; exact hb
+    have hseg : isSegwitMarker (serIns t.ins ++ (serOuts t.outs ++ (leBytes t.locktime 4 ++ r))) = false := by
+      rw [hsplit]
+      unfold isSegwitMarker
+      split
+      · rename_i heq; simp at heq; exact absurd heq.1 hbne
+      · rfl
+    rw [hseg]
+    simp only [Bool.false_eq_true, if_false]
+    rw [hI]
+    simp only
+    rw [hO]
+    simp only
+    rw [readFixed_le _ 4 _ (by omega : t.locktime < 256 ^ 4)]
+    cases t; simp_all
+  | some ws =>
+    rw [hwit] at hw
+    simp only at hw
+    obtain ⟨hwl, hws⟩ := hw
+    unfold parseTxS serTx
+    rw [hwit]
+    simp only [List.append_assoc]
+    rw [readFixed_le _ 4 _ (by omega : t.version < 256 ^ 4)]
+    simp only [List.cons_append, List.nil_append, isSegwitMarker, if_true, List.drop_succ_cons, List.drop_zero]
+    rw [hI]
+    simp only
+    rw [hO]
+    simp only
+    have hW : readN readStackS t.ins.length ((ws.map serStack).flatten ++ (leBytes t.locktime 4 ++ r))
+        = some (ws, leBytes t.locktime 4 ++ r) := by
+      rw [← hwl]
+      exact readN_ser readStackS serStack ws (fun a ha r => readStackS_serStack a (hws a ha) r) _
+    rw [hW]
+    simp only
+    rw [readFixed_le _ 4 _ (by omega : t.locktime < 256 ^ 4)]
+    cases t; simp_all
+
+
+/-- T7 and T9 together: on well-formed transactions parse-then-serialise is the identity on bytes and
+serialise-then-parse the identity on transactions. -/
+theorem strict_roundtrip (t : Tx) (h : t.WF) (r : Bytes) :
+    parseTxS (serTx t ++ r) = some (t, r) ∧ ∀ t' r', parseTxS (serTx t ++ r) = some (t', r') → serTx t' ++ r' = serTx t ++ r :=
+  ⟨parseTxS_serTx t h r, fun t' r' h' => serTx_parseTxS _ t' r' h'⟩
 
 /-- T4: block header round trip (the 80 bytes that are hashed) -/
 theorem readHeader_serHeader (h : BlockHeader) (hw : h.WF) (r : Bytes) :
